@@ -565,7 +565,11 @@ class Mineral:
                 + f"- {len(self.fractions)} grain size results, and\n"
                 + f"- {len(self.orientations)} orientation results."
             )
-        if self.fractions[0].shape[0] == self.orientations[0].shape[0] == self.n_grains:
+        if (
+            np.shape(self.fractions[0])[:1]
+            == np.shape(self.orientations[0])[:1]
+            == (self.n_grains,)
+        ):
             data = {
                 "meta": np.array(
                     [self.phase, self.fabric, self.regime], dtype=np.uint8
@@ -595,8 +599,8 @@ class Mineral:
                 "Size of CPO data arrays must match number of grains."
                 + " You've supplied corrupted data with:\n"
                 + f"- `n_grains = {self.n_grains}`,\n"
-                + f"- `fractions[0].shape = {self.fractions[0].shape}`, and\n"
-                + f"- `orientations[0].shape = {self.orientations[0].shape}`."
+                + f"- `fractions[0].shape = {np.shape(self.fractions[0])}`, and\n"
+                + f"- `orientations[0].shape = {np.shape(self.orientations[0])}`."
             )
 
     def load(self, filename, postfix=None):
